@@ -73,6 +73,7 @@ var (
 	fSkewTx     = simrt.RegisterCounter("fault_txdr_txch_skew")
 	fNearMax    = simrt.RegisterCounter("fault_counter_near_rollover_start")
 	cManyDev    = simrt.RegisterCounter("op_network_with_dozens_of_sessions")
+	cOperator   = simrt.RegisterCounter("fault_unrelated_or_refused_registration_during_traffic")
 	fOneKey     = simrt.RegisterCounter("fault_single_key_mismatch")
 	fVersion    = simrt.RegisterCounter("fault_mac_version_mismatch")
 	fAhead      = simrt.RegisterCounter("fault_receiver_ahead_by_multiple_of_65536")
@@ -416,6 +417,9 @@ func device(w *world, id int, n int, sub uint64) {
 		if w.faults && !live {
 			sessionFault(w, id, r)
 		}
+		if !live && r.Intn(12) == 0 {
+			operatorEvent(r)
+		}
 		sleep(int64(1e9 + r.Intn(4e9)))
 		drain(w, id, r)
 		sendUplink(w, id, r, live)
@@ -430,6 +434,23 @@ func device(w *world, id int, n int, sub uint64) {
 	doneInc()
 	simrt.Notify(w.toNS.Key())
 	simrt.Notify(w.toAir.Key())
+}
+
+// operatorEvent: somewhere in the process an operator calls the registration
+// function with something that has nothing to do with the traffic of this
+// world - a standard CID (refused), or a proprietary CID no frame here uses
+// (any size, also one no frame can carry). Whatever it answers, the frames
+// of the sessions must keep decoding into what was sent.
+func operatorEvent(r *sim.Rand) {
+	up := r.Intn(2) == 0
+	cid := lorawan.CID(2 + r.Intn(0x0f)) // LinkCheck .. DlChannel: standard commands
+	size := 1 + r.Intn(5)
+	if r.Intn(2) == 0 {
+		cid = lorawan.CID(0xa0 + r.Intn(16))
+		size = []int{1, 3, 15, 241, 255, 256, 300, 70000}[r.Intn(8)]
+	}
+	simrt.Count(cOperator)
+	sim.Guard("panic", func() { lorawan.RegisterProprietaryMACCommand(up, cid, size) })
 }
 
 // resync is "faults have stopped": both sides agree on keys and counters
